@@ -16,6 +16,8 @@ def run(ctx):
     rnd = random.Random(ctx.seed)
     q = ctx.quick
     ctx.mc('MC_Cond', workers=4)
+    # the SPECIFICATION's own steps satisfy the property on the decode skeleton (Props!SpecStepOK)
+    ctx.mc('MC_Decode', constants={'MODES': '{16}'}, coverage=False)
     tasks = []
     for i in range(16):
         tasks.append((S.sweep_t16, dict(name='t16-%d' % i, seed=ctx.seed + i, lo=i * 4096, hi=(i + 1) * 4096,
